@@ -126,6 +126,8 @@ pub struct Shared {
 
 struct St {
     arena: Vec<Val>,
+    /// for symbolic entries: Some(k) when the value is known to be a multiple of 10^-k (result of a rounding to k places, its negation or absolute value)
+    known_dp: HashMap<u32, u32>,
     solver: Solver,
     pc: Vec<Bool>,
     names: Vec<(String, u32)>,
@@ -197,6 +199,7 @@ fn with<R>(f: impl FnOnce(&mut St) -> R) -> R {
             unsafe { (*shared).max_leaves.store(env_u32("SYMX_MAX_LEAVES", 20000) as u64, AO::SeqCst) };
             *b = Some(St {
                 arena: reserved(),
+                known_dp: HashMap::new(),
                 solver: new_solver(decide_ms),
                 pc: vec![],
                 names: vec![],
@@ -236,6 +239,17 @@ fn real(v: &Val) -> Real {
 }
 fn mk_sym(r: Real) -> Decimal {
     push(Val::S(r))
+}
+fn dp_of(d: Decimal) -> Option<u32> {
+    with(|s| s.known_dp.get(&d.id).copied())
+}
+fn with_dp(d: Decimal, dp: Option<u32>) -> Decimal {
+    if let Some(k) = dp {
+        with(|s| {
+            s.known_dp.insert(d.id, k);
+        });
+    }
+    d
 }
 fn sh() -> &'static Shared {
     with(|s| unsafe { &*s.shared })
@@ -322,16 +336,17 @@ pub mod sym {
     /// Solve `extra` (may be empty) under the path condition, preferring values on the grid k/100.
     fn solve_nice(s: &mut St, extra: &[Bool]) -> Option<Vec<(String, String)>> {
         // prefer small values on a decimal grid (representable by the real Decimal and readable in replays)
-        for (grid, bound) in [(100i64, 1000i64), (10000, 1_000_000), (0, 1_000_000_000), (0, 0)] {
-            let f = new_solver(if grid == 0 && bound == 0 { s.prove_ms } else { 1500 });
+        for (grid, bound) in [(100i64, 1000i64), (10000, 1_000_000), (1, 1_000_000_000_000), (0, 0)] {
+            let f = new_solver(if grid == 0 && bound == 0 { s.prove_ms } else { 3000 });
             for a in &s.pc {
                 f.assert(a);
             }
             for a in extra {
                 f.assert(a);
             }
-            if bound != 0 {
-                let b = Real::from_rational(bound, 1);
+            if bound != 0 || grid == 0 {
+                // never beyond what the real Decimal can hold (about 7.9e28): the last attempt is bounded by 7e28
+                let b = if bound != 0 { Real::from_rational(bound, 1) } else { Real::from_rational_str("70000000000000000000000000000", "1").expect("numeral") };
                 for (_, id) in s.names.iter() {
                     let t = real(&s.arena[*id as usize]);
                     f.assert(&t.le(&b));
@@ -743,7 +758,7 @@ impl Decimal {
             Val::C(q) => push(Val::C(q.abs())),
             Val::S(r) => {
                 let z = Real::from_rational(0, 1);
-                push(Val::S(r.ge(&z).ite(&r, &r.unary_minus())))
+                with_dp(push(Val::S(r.ge(&z).ite(&r, &r.unary_minus()))), dp_of(*self))
             }
         }
     }
@@ -785,8 +800,10 @@ impl Decimal {
                         s.round_memo.insert(key, v.clone());
                     });
                     push(Val::S(v))
+                } else if dp_of(*self).map(|k| k <= dp).unwrap_or(false) {
+                    *self // already a multiple of 10^-dp
                 } else {
-                    push(Val::S(round_s(&r, dp, st)))
+                    with_dp(push(Val::S(round_s(&r, dp, st))), Some(dp))
                 }
             }
         }
@@ -993,7 +1010,7 @@ impl Neg for Decimal {
     fn neg(self) -> Decimal {
         match get(self) {
             Val::C(q) => push(Val::C(q.neg())),
-            Val::S(r) => push(Val::S(r.unary_minus())),
+            Val::S(r) => with_dp(push(Val::S(r.unary_minus())), dp_of(self)),
         }
     }
 }
@@ -1186,7 +1203,11 @@ impl fmt::Display for Decimal {
                 // precision p: rust_decimal prints the value truncated to p places; print the literal of that term
                 match f.precision() {
                     Some(p) => {
-                        let t = push(Val::S(round_s(&r, p as u32, RoundingStrategy::ToZero).simplify()));
+                        let t = if dp_of(*self).map(|k| k as usize <= p).unwrap_or(false) {
+                            *self // nothing to truncate
+                        } else {
+                            push(Val::S(round_s(&r, p as u32, RoundingStrategy::ToZero).simplify()))
+                        };
                         if p == 0 {
                             write!(f, "{}{:06}", LITERAL_PREFIX, t.id)
                         } else {
